@@ -30,4 +30,7 @@ def run(P, R, L):
     R.clause("ERR-3", "a source that could not be positioned (table cannot be opened / block cannot be read) is reported by the merging "
              "iterator's seek methods, not silently dropped from a scan")
     K.err3_merge_seek_reports(P, R, L)
+    R.clause("GRD-34", "the batch decoder reads exactly the number of operations stored in the batch header (a truncated batch is an error, not a shorter batch)")
+    K.grd34_batch_loop_bounded_by_count(P, R, L)
+    K.grd33_decoder_reports_consumed_bytes(P, R, L)
     R.not_decided += ["detection probability", "behaviour for a concrete flipped byte"]
